@@ -27,12 +27,14 @@ def load() -> list[dict]:
 
 
 def apply(m: dict, scratch: Path) -> None:
-    f = scratch / m["file"]
-    s = f.read_text()
-    if m["find"] not in s:
-        raise SystemExit(f"mutant {m['name']}: pattern not found in {m['file']}")
-    s = s.replace(m["find"], m["replace"], 1)
-    f.write_text(s)
+    edits = m.get("edits") or [{"file": m["file"], "find": m["find"], "replace": m["replace"]}]
+    for e in edits:
+        f = scratch / e.get("file", m.get("file"))
+        s = f.read_text()
+        if e["find"] not in s:
+            raise SystemExit(f"mutant {m['name']}: pattern not found in {f}")
+        s = s.replace(e["find"], e["replace"], 1)
+        f.write_text(s)
 
 
 def main() -> int:
